@@ -227,6 +227,8 @@ fn minimise(prop: &dyn Property, sc: &Value, key: &str, budget: usize) -> (Value
     }
 }
 
+static PANICS: AtomicUsize = AtomicUsize::new(0);
+
 /// Run a property's check. Returns the process exit code.
 pub fn run_check(prop: &dyn Property, tier: Tier) -> i32 {
     let seed = verif_seed();
@@ -265,7 +267,18 @@ pub fn run_check(prop: &dyn Property, tier: Tier) -> i32 {
                     break;
                 }
                 let sc = prop.generate(seed, i, tier);
-                let out = prop.execute(&sc);
+                // a panic inside an oracle (an observation it was not written for) must not take the whole check down
+                // with it: the scenario is counted as skipped and the check ends as a harness error (exit 2) unless
+                // violations were found
+                let out = match std::panic::catch_unwind(std::panic::AssertUnwindSafe(|| prop.execute(&sc))) {
+                    Ok(o) => o,
+                    Err(e) => {
+                        let msg = e.downcast_ref::<String>().cloned().or_else(|| e.downcast_ref::<&str>().map(|s| s.to_string())).unwrap_or_default();
+                        eprintln!("harness error: scenario {} panicked: {}", i, msg);
+                        PANICS.fetch_add(1, Ordering::SeqCst);
+                        Outcome::skip("harness_panic(oracle not prepared for this observation)")
+                    }
+                };
                 if !out.violations.is_empty() && found.fetch_add(1, Ordering::SeqCst) + 1 >= 8 {
                     stop.store(true, Ordering::SeqCst);
                 }
@@ -513,6 +526,10 @@ pub fn run_check(prop: &dyn Property, tier: Tier) -> i32 {
         return 2;
     }
     crate::world::cleanup_scratch();
+    if exit_code == 0 && PANICS.load(Ordering::SeqCst) > 0 {
+        eprintln!("harness error: {} scenario(s) panicked", PANICS.load(Ordering::SeqCst));
+        return 2;
+    }
     exit_code
 }
 
